@@ -5,7 +5,7 @@
    coordinates are rationals (every binary64 is one). *)
 From Coq Require Import List Arith Bool ZArith QArith.
 Import ListNotations.
-Require Import Model.C12_Refine Model.C12_Geom Proofs.C12_RefineProofs Proofs.C12_GeomProofs.
+Require Import Model.C12_Refine Model.C12_Geom Proofs.C12_RefineProofs Proofs.C12_GeomProofs Proofs.C12_BoundaryProofs.
 Require Import Gen.C12Gen Dyn.C12Tie.
 Local Open Scope nat_scope.
 
@@ -236,6 +236,48 @@ Theorem C12_generic_fallback_wrong_for_tetrahedra :
                   gen_fallback_index (length cls) j k <> gen_tet_submap cls j k.
 Proof. exact tet_fallback_differs. Qed.
 Print Assumptions C12_generic_fallback_wrong_for_tetrahedra.
+
+(* ---------------------------------------------------------------------------------------------
+   boundary_children: for every mesh and every old facet f = {u, v} (local facet a of some cell k), after ALL the
+   assignments new_facets[r, t2f[a]] = m.t2f[b, ix_c] (shared facets are written from both neighbours; the last
+   write wins) rows 0 and 1 of column f name the two halves {u, c} and {v, c} of f, c = the node created on f.
+   Hence a tagged facet is replaced by exactly its two halves (interior facets included). *)
+Theorem C12_tri_boundary_children : forall p tb f k0 a0,
+  k0 < length (tb_t tb) -> a0 < length gen_tri_rfacets -> nth a0 (nth k0 (tb_t2f tb) []) 0 = f ->
+  (* = exists a cell k with local facet a = f, whose two ends e0, e1 give
+       new_facets[0][f] = {t[e0][k], offF + f}  and  new_facets[1][f] = {t[e1][k], offF + f} *)
+  halves_spec gen_tri_rfacets tb (offF (offs_of tri_spec p tb))
+    (bwrites gen_tri_rfacets (snd (uniform_block tri_spec 2 p tb)) (length (tb_t tb)) (tb_t2f tb) gen_tri_bassign) f.
+Proof. intros p tb. exact (boundary_children_block gen_tri_rfacets tri_spec 2 p tb gen_tri_bassign tri_bassign_ok). Qed.
+Print Assumptions C12_tri_boundary_children.
+
+Theorem C12_quad_boundary_children : forall p tb f k0 a0,
+  k0 < length (tb_t tb) -> a0 < length gen_quad_rfacets -> nth a0 (nth k0 (tb_t2f tb) []) 0 = f ->
+  halves_spec gen_quad_rfacets tb (offF (offs_of quad_spec p tb))
+    (bwrites gen_quad_rfacets (snd (uniform_block quad_spec 2 p tb)) (length (tb_t tb)) (tb_t2f tb) gen_quad_bassign) f.
+Proof. intros p tb. exact (boundary_children_block gen_quad_rfacets quad_spec 2 p tb gen_quad_bassign quad_bassign_ok). Qed.
+Print Assumptions C12_quad_boundary_children.
+
+(* sort_t = True (the default of MeshTri1): every cell of the refined mesh is re-sorted before m.t2f is computed.
+   If the cells of the input are increasing and facets are numbered lexicographically (f0 < f2 < f1 in every cell) the
+   children read by the map are increasing already, and the same statement holds for the re-sorted connectivity. *)
+Theorem C12_tri_boundary_children_sort_t : forall p tb,
+  (forall k, k < length (tb_t tb) -> exists v0 v1 v2 f0 f1 f2,
+     nth k (tb_t tb) [] = [v0; v1; v2] /\ nth k (tb_t2f tb) [] = [f0; f1; f2] /\
+     v0 < v1 /\ v1 < v2 /\ v2 < length p /\ f0 < f2 /\ f2 < f1) ->
+  forall f k0 a0,
+  k0 < length (tb_t tb) -> a0 < length gen_tri_rfacets -> nth a0 (nth k0 (tb_t2f tb) []) 0 = f ->
+  halves_spec gen_tri_rfacets tb (offF (offs_of tri_spec p tb))
+    (bwrites gen_tri_rfacets (map sort_nat (snd (uniform_block tri_spec 2 p tb))) (length (tb_t tb)) (tb_t2f tb)
+             gen_tri_bassign) f.
+Proof.
+  intros p tb Hmesh.
+  apply (boundary_children_block_sorted gen_tri_rfacets tri_spec 2 p tb gen_tri_bassign tri_bassign_ok).
+  intros st Hst k Hk. destruct (Hmesh k Hk) as [v0 [v1 [v2 [f0 [f1 [f2 [Hv [Hf [H1 [H2 [H3 [H4 H5]]]]]]]]]]]].
+  pose proof tri_bassign_children as Hc. rewrite forallb_forall in Hc. specialize (Hc st Hst). apply Nat.ltb_lt in Hc.
+  exact (tri_children_sorted (offs_of tri_spec p tb) (cell_ctx tb k) v0 v1 v2 f0 f1 f2 (asg_c st) Hv Hf H1 H2 H3 H4 H5 Hc).
+Qed.
+Print Assumptions C12_tri_boundary_children_sort_t.
 
 (* non-vacuity: the unit square of two triangles, refined by the model *)
 Example C12_instance :
